@@ -456,6 +456,30 @@ def stocks_cases(cx):
                             if sub == "StockDrivenDSM" and st.f.get("solver") != want_solver:
                                 problems.append(f"solver is '{st.f.get('solver')}', the definition says '{want_solver}'")
                         cx.ob("C18.stocks", not problems, "make_empty_stocks", inp, "; ".join(problems[:3]))
+    # several definitions in one call: each stock gets ITS definition's process (none, if it names none) whatever came before it
+    for order in (("use", None), (None, "use"), ("use", None, "waste")):
+        w = new_world(cx)
+        procs = w.it.call_fn(mp, [list(pnames)], {})
+        sds = []
+        for i, pn in enumerate(order):
+            kw = dict(name=f"s{i}", dim_letters=("t", "a"), subclass=cx.prog.cls("SimpleFlowDrivenStock"), time_letter="t")
+            if pn:
+                kw["process_name"] = pn
+            sds.append(defs(w, "StockDefinition", **kw))
+        inp = {"stock_definitions": [f"s{i} at {pn}" for i, pn in enumerate(order)]}
+        kind, r = run_guarded(lambda: w.it.call_fn(fn, [], dict(stock_definitions=sds, processes=procs, dims=sys_dims(w))))
+        problems = []
+        if kind != "ok" or not isinstance(r, dict):
+            problems.append(f"ended with {kind}: {r}")
+        else:
+            if list(r) != [f"s{i}" for i in range(len(order))]:
+                problems.append(f"stocks {list(r)} instead of one per definition in the listed order")
+            for i, pn in enumerate(order):
+                st = r.get(f"s{i}")
+                have = st.f.get("process") if isinstance(st, Obj) else "?"
+                if have is not (procs[pn] if pn else None):
+                    problems.append(f"stock s{i} is attached to process {getattr(have, 'f', {}).get('name') if isinstance(have, Obj) else have}, its definition says {pn}")
+        cx.ob("C18.stocks", not problems, "make_empty_stocks", inp, "; ".join(problems[:3]))
     # a time letter other than the default
     for sub in STOCK_CLS:
         w = new_world(cx)
